@@ -16,6 +16,7 @@ from pyvc.values import ByteArr, HObject, RaiseExc, Ref, SBool, SBytes, SInt, Vi
 
 W = "pyrtcm.socketwrapper.SocketWrapper"
 NEXTLF_NET = z3.Function("NextLF_net", z3.IntSort(), z3.IntSort())
+NET_END = z3.Int("net_end")  # the peer's stream is finite: everything it ever sends is net[0:net_end] (termination variants, C04)
 
 
 def new_socket(st, name="net"):
@@ -23,7 +24,7 @@ def new_socket(st, name="net"):
     import socket as pysocket
     o.pycls = pysocket.socket
     rpos = z3.Int(f"{name}_rpos0")
-    st.assume(rpos >= 0)
+    st.assume(rpos >= 0, rpos <= NET_END)
     o.fields.update({"arr": ByteArr.get(name), "rpos": rpos, "nrecv": 0, "last": "none"})
     return st.alloc(o)
 
@@ -32,7 +33,7 @@ def new_socket(st, name="net"):
 class SockRecv(Contract):
     qualname = "ext.Socket.recv"
     trusted = ("socket.recv(bufsize): returns d = net[rpos:rpos+|d|], 0 <= |d| <= bufsize (|d| = 0 only when the peer has closed), "
-               "or raises OSError / TimeoutError having consumed nothing")
+               "or raises OSError / TimeoutError having consumed nothing; the peer's stream is finite (rpos <= net_end)")
 
     def apply(self, eng, st, selfv, args, kwargs, site):
         n = int_term(args[0])
@@ -50,7 +51,7 @@ class SockRecv(Contract):
             if kind == "data":
                 d = z3.Int(f"seg{f['nrecv']}_{s.next_oid[0]}")
                 s.next_oid[0] += 1
-                s.assume(d >= 1, d <= n)
+                s.assume(d >= 1, d <= n, rpos + d <= NET_END)
                 if not feasible(s.pc):
                     continue
                 fs["rpos"] = z3.simplify(rpos + d)
@@ -155,7 +156,7 @@ class WRead(Contract):
         tag = st.next_oid[0]
         st.next_oid[0] += 1
         r1 = z3.Int(f"rpos_after_read_{tag}")
-        st.assume(r1 >= sf["rpos"])
+        st.assume(r1 >= sf["rpos"], r1 <= NET_END)
         outs = []
         # full read
         s = st.fork()
@@ -192,9 +193,10 @@ class WRead(Contract):
 
         def inv(eng_, s, k):
             r = s.obj(sock).fields["rpos"]
-            return [("buffer_is_undelivered_received_bytes", buffer_is(s, selfv, arr, d0, r)), ("rpos_monotone", r >= r0)]
+            return [("buffer_is_undelivered_received_bytes", buffer_is(s, selfv, arr, d0, r)), ("rpos_monotone", z3.And(r >= r0, r <= NET_END))]
 
-        self.loops = {0: LoopSpec(invariant=inv, havoc=havoc)}
+        # termination (C04): an iteration that goes round again has taken at least one byte off the peer's finite stream
+        self.loops = {0: LoopSpec(invariant=inv, havoc=havoc, variant=lambda eng_, s: NET_END - s.obj(sock).fields["rpos"])}
         canary = []
         for s, out in eng.exec_function(fi, st, {"self": selfv, "num": SInt(num)}, contract=self):
             if isinstance(out, RaiseExc):
@@ -237,7 +239,7 @@ class WReadline(Contract):
 
         def havoc(eng_, s):
             r = z3.Int("rpos_at_loop_head")
-            s.assume(r >= head_d)
+            s.assume(r >= head_d, r <= NET_END)
             s.obj(sock).fields["rpos"] = r
             s.obj(selfv).fields["_buffer"] = SBytes([View(arr, head_d, r)], mutable=True)
             s.ghost["dpos"] = SInt(head_d)
@@ -255,7 +257,9 @@ class WReadline(Contract):
             # definitional instances for 'first 0x0A': the byte at NextLF is 0x0A, and the byte about to be read is not one before it
             return [nl >= d0, byte_at(s, arr, nl) == 0x0A, z3.Implies(head_d < nl, byte_at(s, arr, head_d) != 0x0A)]
 
-        self.loops = {0: LoopSpec(invariant=inv, havoc=havoc, kinds={"line": line_kind}, facts=facts)}
+        # termination (C04): every iteration that goes round again has delivered one more byte of the peer's finite stream
+        self.loops = {0: LoopSpec(invariant=inv, havoc=havoc, kinds={"line": line_kind}, facts=facts,
+                                  variant=lambda eng_, s: NET_END - int_term(s.ghost["dpos"]))}
         st.assume(nl >= d0)
         canary = []
         for s, out in eng.exec_function(fi, st, {"self": selfv}, contract=self):
@@ -287,7 +291,7 @@ class WInit(Contract):
         tag = st.next_oid[0]
         st.next_oid[0] += 1
         r1 = z3.Int(f"rpos_after_init_{tag}")
-        st.assume(r1 >= r0)
+        st.assume(r1 >= r0, r1 <= NET_END)
         sf["rpos"] = r1
         o.fields.update({"_socket": sock, "_bufsize": kwargs.get("bufsize", args[2] if len(args) > 2 else 4096),
                          "_encoding": kwargs.get("encoding", args[1] if len(args) > 1 else 0),
